@@ -11,14 +11,14 @@
 /* chunk memory: a real chunk, or a gap (NULL with len > 0) where the state allows it */
 #define CUR_IN(c) (__CPROVER_is_fresh((c), sizeof(htp_connp_t)) && CUR_IN_FIELDS(c) && \
     (g_in_gap ? (c)->in_current_data == NULL : __CPROVER_is_fresh((c)->in_current_data, (c)->in_current_len)))
-#define TX_IN(c) (__CPROVER_is_fresh((c)->in_tx, sizeof(htp_tx_t)) && (c)->in_tx->connp == (c) && \
+#define TX_IN(c) (__CPROVER_is_fresh((c)->in_tx, sizeof(htp_tx_t)) && __CPROVER_pointer_equals((c)->in_tx->connp, (c)) && \
     (c)->in_tx->request_message_len >= 0 && (c)->in_tx->request_message_len <= OFFMAX && \
     (c)->in_tx->request_entity_len >= 0 && (c)->in_tx->request_entity_len <= OFFMAX)
 
 #define CUR_OUT_FIELDS(c) (CUR_OUT_CURSOR(c) && (c)->out_stream_offset <= OFFMAX)
 #define CUR_OUT(c) (__CPROVER_is_fresh((c), sizeof(htp_connp_t)) && CUR_OUT_FIELDS(c) && \
     (g_in_gap ? (c)->out_current_data == NULL : __CPROVER_is_fresh((c)->out_current_data, (c)->out_current_len)))
-#define TX_OUT(c) (__CPROVER_is_fresh((c)->out_tx, sizeof(htp_tx_t)) && (c)->out_tx->connp == (c) && \
+#define TX_OUT(c) (__CPROVER_is_fresh((c)->out_tx, sizeof(htp_tx_t)) && __CPROVER_pointer_equals((c)->out_tx->connp, (c)) && \
     (c)->out_tx->response_message_len >= 0 && (c)->out_tx->response_message_len <= OFFMAX && \
     (c)->out_tx->response_entity_len >= 0 && (c)->out_tx->response_entity_len <= OFFMAX)
 
@@ -325,5 +325,159 @@ __CPROVER_ensures((O(connp->in_status) != HTP_STREAM_STOP && O(connp->in_status)
                    (len > 0 || O(connp->in_status) == HTP_STREAM_CLOSED)) ==> connp->conn->in_data_counter == O(connp->conn->in_data_counter) + (int64_t) len)
 /* 7. the parser never un-suspends itself: the response side's DATA_OTHER is cleared only by offering request data */
 __CPROVER_ensures(IS_REQ_STATE(connp->in_state))
+;
+/* ==== response driver (C09, C16) ===================================================================== */
+/* The contract every response state function is replaced by when the DRIVER is verified.  Each state
+ * function's own enforced contract contains these clauses (macro RS_COMMON_*), so enforced => shared. */
+/* DATA / DATA_BUFFER are only returned with the chunk exhausted; the cursor stays ordered and never moves back; chunk identity is kept */
+#define RS_COMMON_POST(c) ( \
+    ((__CPROVER_return_value == HTP_DATA || __CPROVER_return_value == HTP_DATA_BUFFER) ==> (c)->out_current_read_offset == (c)->out_current_len) && \
+    CUR_OUT_CURSOR(c) && \
+    (c)->out_current_len == O((c)->out_current_len) && (c)->out_current_data == O((c)->out_current_data) && \
+    (c)->conn == O((c)->conn) && (c)->cfg == O((c)->cfg) && \
+    IS_RES_STATE((c)->out_state) && RES_TX_INV(c) && \
+    /* a state function never reports the sticky states itself; only CONNECT handling touches the stream states */ \
+    (c)->out_status != HTP_STREAM_STOP && (c)->out_status != HTP_STREAM_ERROR)
+/* a request transaction is attached in every state except IDLE and the HTTP/0.9 drain state */
+htp_status_t contract_res_state(htp_connp_t *connp)
+__CPROVER_requires(__CPROVER_rw_ok(connp, sizeof(*connp)) && CUR_OUT_CURSOR(connp) && IS_RES_STATE(connp->out_state))
+__CPROVER_requires(connp->out_status != HTP_STREAM_STOP && connp->out_status != HTP_STREAM_ERROR && (connp->out_tx != NULL || connp->out_state == htp_connp_RES_IDLE || connp->out_state == htp_connp_RES_IDLE))
+__CPROVER_assigns(RS_STATE_FRAME(connp))
+/* g_state_calls is a sticky flag: 0 = no state function has run since the harness cleared it */
+__CPROVER_ensures(g_state_calls == 1)
+__CPROVER_ensures(RS_COMMON_POST(connp))
+;
+/* helpers of the driver, replaced: they run callbacks (any of OK / STOP / ERROR) and touch only receiver bookkeeping */
+htp_status_t contract_htp_res_handle_state_change(htp_connp_t *connp)
+__CPROVER_requires(__CPROVER_rw_ok(connp, sizeof(*connp)))
+__CPROVER_assigns(connp->out_state_previous, connp->out_data_receiver_hook, connp->out_current_receiver_offset)
+__CPROVER_ensures(connp->out_current_receiver_offset == O(connp->out_current_receiver_offset) || connp->out_current_receiver_offset == connp->out_current_read_offset)
+__CPROVER_ensures(__CPROVER_return_value == HTP_OK || __CPROVER_return_value == HTP_STOP || __CPROVER_return_value == HTP_ERROR)
+;
+htp_status_t contract_htp_connp_res_receiver_send_data(htp_connp_t *connp, int is_last)
+__CPROVER_requires(__CPROVER_rw_ok(connp, sizeof(*connp)))
+__CPROVER_assigns(connp->out_current_receiver_offset)
+__CPROVER_ensures(connp->out_current_receiver_offset == O(connp->out_current_receiver_offset) || connp->out_current_receiver_offset == connp->out_current_read_offset)
+;
+/* buffering of the unconsumed tail (enforced on the real function by unit htp_connp_res_buffer, C10) */
+htp_status_t contract_site_htp_connp_res_buffer(htp_connp_t *connp)
+__CPROVER_requires(__CPROVER_rw_ok(connp, sizeof(*connp)))
+__CPROVER_assigns(connp->out_buf, connp->out_buf_size, connp->out_current_consume_offset)
+__CPROVER_ensures(__CPROVER_return_value == HTP_OK || __CPROVER_return_value == HTP_ERROR)
+__CPROVER_ensures(__CPROVER_return_value == HTP_OK ==> (connp->out_current_consume_offset == connp->out_current_read_offset || connp->out_current_consume_offset == O(connp->out_current_consume_offset)))
+__CPROVER_ensures(__CPROVER_return_value != HTP_OK ==> connp->out_current_consume_offset == O(connp->out_current_consume_offset))
+;
+htp_status_t contract_site_htp_tx_state_response_complete_ex(htp_tx_t *tx, int hybrid_mode)
+__CPROVER_requires(tx != NULL)
+__CPROVER_assigns(g_txstate_n)
+__CPROVER_ensures(g_txstate_n == 1)
+__CPROVER_ensures(__CPROVER_return_value == HTP_OK || __CPROVER_return_value == HTP_STOP || __CPROVER_return_value == HTP_ERROR || __CPROVER_return_value == HTP_DATA_OTHER)
+;
+
+int contract_htp_connp_res_data(htp_connp_t *connp, const htp_time_t *timestamp, const void *data, size_t len)
+__CPROVER_requires(__CPROVER_is_fresh(connp, sizeof(*connp)) && __CPROVER_is_fresh(connp->conn, sizeof(htp_conn_t)))
+__CPROVER_requires(timestamp == NULL || __CPROVER_is_fresh(timestamp, sizeof(*timestamp)))
+__CPROVER_requires(len <= CHUNK_CAP && (g_in_gap ? data == NULL : __CPROVER_is_fresh(data, len)))
+__CPROVER_requires(IS_RES_STATE(connp->out_state) && STREAM_STATE_OK(connp->out_status) && STREAM_STATE_OK(connp->out_status))
+__CPROVER_requires(connp->out_stream_offset >= 0 && connp->out_stream_offset <= OFFMAX && connp->conn->out_data_counter >= 0 && connp->conn->out_data_counter <= OFFMAX)
+__CPROVER_requires(g_state_calls == 0 && g_txstate_n == 0)
+__CPROVER_assigns(RS_STATE_FRAME(connp), g_txstate_n, connp->conn->out_data_counter)
+/* 1. documented stream states only */
+__CPROVER_ensures(__CPROVER_return_value == HTP_STREAM_DATA || __CPROVER_return_value == HTP_STREAM_DATA_OTHER || __CPROVER_return_value == HTP_STREAM_STOP ||
+                  __CPROVER_return_value == HTP_STREAM_ERROR || __CPROVER_return_value == HTP_STREAM_TUNNEL || __CPROVER_return_value == HTP_STREAM_CLOSED)
+/* 2. sticky failure: STOP / ERROR on entry is reported again, no state function and no transition runs, nothing but the log is touched */
+__CPROVER_ensures((O(connp->out_status) == HTP_STREAM_STOP || O(connp->out_status) == HTP_STREAM_ERROR) ==> (
+    __CPROVER_return_value == (int) O(connp->out_status) && connp->out_status == O(connp->out_status) && g_state_calls == 0 && g_txstate_n == 0 &&
+    connp->out_state == O(connp->out_state) && connp->out_current_read_offset == O(connp->out_current_read_offset) && connp->conn->out_data_counter == O(connp->conn->out_data_counter)))
+/* 3. DATA means the whole chunk was consumed; DATA_OTHER means strictly fewer, resume at the reported count */
+__CPROVER_ensures(__CPROVER_return_value == HTP_STREAM_DATA ==> (connp->out_current_read_offset == (int64_t) len && connp->out_status == HTP_STREAM_DATA))
+__CPROVER_ensures(__CPROVER_return_value == HTP_STREAM_DATA_OTHER ==> (connp->out_current_read_offset < (int64_t) len && connp->out_current_read_offset >= 0 && connp->out_status == HTP_STREAM_DATA_OTHER))
+/* 4. STOP / ERROR become sticky */
+__CPROVER_ensures((__CPROVER_return_value == HTP_STREAM_STOP || __CPROVER_return_value == HTP_STREAM_ERROR) ==> connp->out_status == (enum htp_stream_state_t) __CPROVER_return_value)
+/* 5. tunnel mode on entry: TUNNEL reported, no state function runs (C16); the bytes are still counted */
+/* (a parser without a request transaction outside IDLE is rejected by the sanity guard first: HTTP/0.9 drain state) */
+__CPROVER_ensures((O(connp->out_status) == HTP_STREAM_TUNNEL && len > 0 && (O(connp->out_tx) != NULL || O(connp->out_state) == htp_connp_RES_IDLE)) ==> (__CPROVER_return_value == HTP_STREAM_TUNNEL && g_state_calls == 0 && g_txstate_n == 0 && connp->out_status == HTP_STREAM_TUNNEL))
+/* 6. byte counter: every call that passes the entry guards adds exactly len */
+__CPROVER_ensures((O(connp->out_status) != HTP_STREAM_STOP && O(connp->out_status) != HTP_STREAM_ERROR && (O(connp->out_tx) != NULL || O(connp->out_state) == htp_connp_RES_IDLE) &&
+                   (len > 0 || O(connp->out_status) == HTP_STREAM_CLOSED)) ==> connp->conn->out_data_counter == O(connp->conn->out_data_counter) + (int64_t) len)
+__CPROVER_ensures(IS_RES_STATE(connp->out_state))
+;
+
+/* ==== stubs shared by the line-oriented states ======================================================= */
+/* region handed to the line logic: a readable range of *len bytes (L1 of C03 is enforced on the real function) */
+htp_status_t contract_htp_connp_req_consolidate_data(htp_connp_t *connp, unsigned char **data, size_t *len)
+__CPROVER_requires(__CPROVER_rw_ok(connp, sizeof(*connp)) && __CPROVER_w_ok(data, sizeof(*data)) && __CPROVER_w_ok(len, sizeof(*len)))
+__CPROVER_assigns(g_consol_n, *data, *len, connp->in_buf, connp->in_buf_size, connp->in_current_consume_offset)
+__CPROVER_ensures(g_consol_n == 1)
+__CPROVER_ensures(__CPROVER_return_value == HTP_OK || __CPROVER_return_value == HTP_ERROR)
+__CPROVER_ensures(__CPROVER_return_value == HTP_OK ==> (*len <= LINE_CAP && __CPROVER_is_fresh(*data, *len)))
+__CPROVER_ensures(connp->in_current_consume_offset == O(connp->in_current_consume_offset) || connp->in_current_consume_offset == connp->in_current_read_offset)
+;
+void contract_htp_connp_req_clear_buffer(htp_connp_t *connp)
+__CPROVER_requires(__CPROVER_rw_ok(connp, sizeof(*connp)))
+__CPROVER_assigns(g_clear_n, connp->in_buf, connp->in_buf_size, connp->in_current_consume_offset)
+__CPROVER_ensures(g_clear_n == 1 && connp->in_buf == NULL && connp->in_buf_size == 0 && connp->in_current_consume_offset == connp->in_current_read_offset)
+;
+bstr *contract_site_bstr_dup_mem(const void *data, size_t len)
+__CPROVER_requires(len <= LINE_CAP && __CPROVER_r_ok(data, len))
+__CPROVER_assigns()
+__CPROVER_ensures(__CPROVER_return_value == NULL || (__CPROVER_is_fresh(__CPROVER_return_value, sizeof(bstr) + len) && __CPROVER_return_value->len == len && __CPROVER_return_value->size == len && __CPROVER_return_value->realptr == NULL))
+;
+int contract_htp_convert_method_to_number(bstr *method)
+__CPROVER_requires(method != NULL) __CPROVER_assigns() __CPROVER_ensures(__CPROVER_return_value >= HTP_M_UNKNOWN && __CPROVER_return_value <= HTP_M_INVALID);
+
+/* request-side transaction transitions as seen from a state function: they may move the request state machine, detach the
+ * transaction, run callbacks (OK / STOP / ERROR) and even free the transaction (auto-destroy); they never touch the cursor. */
+#define TXS_REQ_POST(c) (g_txstate_n == 1 && CUR_IN_CURSOR(c) && \
+    (c)->in_current_read_offset == O((c)->in_current_read_offset) && (c)->in_current_consume_offset == O((c)->in_current_consume_offset) && \
+    (c)->in_current_len == O((c)->in_current_len) && (c)->in_current_data == O((c)->in_current_data) && (c)->in_stream_offset == O((c)->in_stream_offset) && \
+    (c)->conn == O((c)->conn) && (c)->cfg == O((c)->cfg) && (c)->in_chunk_count == O((c)->in_chunk_count) && (c)->in_status == O((c)->in_status) && \
+    (c)->in_buf == O((c)->in_buf) && (c)->in_buf_size == O((c)->in_buf_size) && \
+    IS_REQ_STATE((c)->in_state) && REQ_TX_INV(c) && \
+    (__CPROVER_return_value == HTP_OK || __CPROVER_return_value == HTP_STOP || __CPROVER_return_value == HTP_ERROR))
+htp_status_t contract_stub_htp_tx_state_request_complete(htp_tx_t *tx)
+__CPROVER_requires(tx != NULL)
+__CPROVER_requires(__CPROVER_rw_ok(tx, sizeof(*tx)))
+__CPROVER_requires(__CPROVER_rw_ok(tx->connp, sizeof(htp_connp_t)))
+__CPROVER_requires(CUR_IN_CURSOR(tx->connp))
+__CPROVER_assigns(g_txstate_n, g_txstate_which, __CPROVER_object_whole(tx->connp), __CPROVER_object_whole(tx))
+__CPROVER_frees(tx)
+__CPROVER_ensures(TXS_REQ_POST(O(tx->connp)) && g_txstate_which == 1)
+/* on success the request side is detached and idle (or draining after HTTP/0.9) */
+__CPROVER_ensures(__CPROVER_return_value == HTP_OK ==> (O(tx->connp)->in_tx == NULL && (O(tx->connp)->in_state == htp_connp_REQ_IDLE || O(tx->connp)->in_state == htp_connp_REQ_IGNORE_DATA_AFTER_HTTP_0_9)))
+__CPROVER_ensures(__CPROVER_return_value != HTP_OK ==> (O(tx->connp)->in_tx == O(tx->connp->in_tx) && O(tx->connp)->in_state == O(tx->connp->in_state)))
+;
+
+/* ==== CONNECT handling on the request side (C16) ======================================================= */
+#define RQ_PRE(c, SELF) (CUR_IN(c) && TX_IN(c) && !g_in_gap && (c)->in_state == SELF && (c)->in_status != HTP_STREAM_STOP && (c)->in_status != HTP_STREAM_ERROR)
+htp_status_t contract_htp_connp_REQ_CONNECT_CHECK(htp_connp_t *connp)
+__CPROVER_requires(RQ_PRE(connp, htp_connp_REQ_CONNECT_CHECK))
+/* frame: the cursor is not assignable here, so a CONNECT request consumes nothing beyond itself */
+__CPROVER_assigns(connp->in_state, connp->in_status)
+__CPROVER_ensures(connp->in_tx->request_method_number == HTP_M_CONNECT
+    ? (__CPROVER_return_value == HTP_DATA_OTHER && connp->in_state == htp_connp_REQ_CONNECT_WAIT_RESPONSE && connp->in_status == HTP_STREAM_DATA_OTHER)
+    : (__CPROVER_return_value == HTP_OK && connp->in_state == htp_connp_REQ_BODY_DETERMINE && connp->in_status == O(connp->in_status)))
+__CPROVER_ensures(RQ_COMMON_POST(connp))
+;
+htp_status_t contract_htp_connp_REQ_CONNECT_WAIT_RESPONSE(htp_connp_t *connp)
+__CPROVER_requires(RQ_PRE(connp, htp_connp_REQ_CONNECT_WAIT_RESPONSE))
+__CPROVER_assigns(connp->in_state)
+/* until the response line has been seen the request side stays suspended and nothing at all changes */
+__CPROVER_ensures(connp->in_tx->response_progress <= HTP_RESPONSE_LINE ==> (__CPROVER_return_value == HTP_DATA_OTHER && connp->in_state == O(connp->in_state)))
+__CPROVER_ensures(connp->in_tx->response_progress > HTP_RESPONSE_LINE ==> (__CPROVER_return_value == HTP_OK &&
+    connp->in_state == ((connp->in_tx->response_status_number >= 200 && connp->in_tx->response_status_number <= 299) ? htp_connp_REQ_CONNECT_PROBE_DATA : htp_connp_REQ_FINALIZE)))
+__CPROVER_ensures(RQ_COMMON_POST(connp))
+;
+/* probing the first line after an accepted CONNECT: the pending bytes are never discarded (no clear_buffer), a known
+ * method hands over to normal request completion, anything else puts BOTH directions into tunnel mode */
+htp_status_t contract_htp_connp_REQ_CONNECT_PROBE_DATA(htp_connp_t *connp)
+__CPROVER_requires(RQ_PRE(connp, htp_connp_REQ_CONNECT_PROBE_DATA) && g_clear_n == 0 && g_txstate_n == 0 && g_consol_n == 0)
+__CPROVER_assigns(g_clear_n, g_consol_n, g_txstate_n, g_txstate_which, __CPROVER_object_whole(connp), __CPROVER_object_whole(connp->in_tx))
+__CPROVER_frees(connp->in_tx)
+__CPROVER_ensures(g_clear_n == 0)
+__CPROVER_ensures((__CPROVER_return_value == HTP_OK && g_txstate_n == 0) ==> (connp->in_status == HTP_STREAM_TUNNEL && connp->out_status == HTP_STREAM_TUNNEL && connp->in_state == O(connp->in_state)))
+__CPROVER_ensures((__CPROVER_return_value == HTP_DATA_BUFFER) ==> (g_txstate_n == 0 && g_consol_n == 0 && connp->in_status == O(connp->in_status) && connp->out_status == O(connp->out_status) &&
+    connp->in_current_consume_offset == O(connp->in_current_consume_offset)))
+__CPROVER_ensures(RQ_COMMON_POST(connp))
 ;
 #endif
